@@ -220,12 +220,25 @@ func runProperty(id, tier string, keep bool, only string, replayPath string) int
 		}
 	}
 	// 3. the property's test binary
+	// (the harness module's replace directives name /repo/pkg/...; the binary is built with a copy of
+	// go.mod whose replacements point into the snapshot, so that the in-process library checks see exactly
+	// the tree the tools were built from - also when VERIF_REPO_DIR names another tree)
 	testBin := filepath.Join(bin, id+".test")
+	modfile := filepath.Join(scratch, "harness.mod")
+	{
+		hm, err1 := os.ReadFile(filepath.Join(verifDir, "harness", "go.mod"))
+		hs, err2 := os.ReadFile(filepath.Join(verifDir, "harness", "go.sum"))
+		if err1 != nil || err2 != nil {
+			return inconclusive("cannot read the harness module files: %v %v", err1, err2)
+		}
+		os.WriteFile(modfile, []byte(strings.ReplaceAll(string(hm), "=> /repo/pkg/", "=> "+snap+"/pkg/")), 0o644)
+		os.WriteFile(filepath.Join(scratch, "harness.sum"), hs, 0o644)
+	}
 	wg.Add(1)
 	go func() {
 		defer wg.Done()
 		r := pipeline.Run(pipeline.Opts{Dir: filepath.Join(verifDir, "harness"), Env: pipeline.GoEnv(), Timeout: 15 * time.Minute},
-			"go", "test", "-c", "-o", testBin, "./"+cfg.Pkg)
+			"go", "test", "-c", "-modfile="+modfile, "-o", testBin, "./"+cfg.Pkg)
 		resCh <- buildRes{"test binary " + cfg.Pkg, r}
 	}()
 	wg.Wait()
